@@ -480,14 +480,7 @@ class ASTTypeBuilder:
         def fields():
             field_names = set(f.name for f in input_object_type.fields)
             fields = [
-                InputField(
-                    f.name,
-                    self.extend_type(f.type),
-                    default_value=f._default_value,
-                    description=f.description,
-                    node=f.node,
-                )
-                for f in input_object_type.fields
+                self._extend_input_field(f) for f in input_object_type.fields
             ]
 
             for extension_node in extensions:
@@ -499,7 +492,12 @@ class ASTTypeBuilder:
                             [ext_field],
                         )
                     field_names.add(ext_field.name.value)
-                    fields.append(self._build_input_field(ext_field))
+                    # New fields must reference the extended types as well.
+                    fields.append(
+                        self._extend_input_field(
+                            self._build_input_field(ext_field)
+                        )
+                    )
 
             return fields
 
@@ -508,6 +506,15 @@ class ASTTypeBuilder:
             description=input_object_type.description,
             fields=fields,
             nodes=input_object_type.nodes + extensions,  # type: ignore
+        )
+
+    def _extend_input_field(self, field: InputField) -> InputField:
+        return InputField(
+            field.name,
+            self.extend_type(field.type),
+            default_value=field._default_value,
+            description=field.description,
+            node=field.node,
         )
 
     def _extend_scalar_type(self, scalar_type: ScalarType) -> ScalarType:
